@@ -288,3 +288,103 @@ def no_new_state(ck, rels, rule='STATE-no-memory'):
                           key='{}|instance|{}|{}'.format(rule, rel, qual))
     ck.ob(rule, ','.join(rels), True, 'state lint ran over {} ({} shared-container writer(s), {} method(s) with instance state, all in the inventory)'.format(
         ', '.join(rels), nmod, ninst), key=rule + '|ran|' + ','.join(rels))
+
+
+# ----------------------------------------------------------------------------------------------------------------------
+# ARG-binding: an argument that carries the name of one of the callee's parameters is bound to that parameter
+ARG_TRIAGE = {
+    # (caller file, caller function, callee, argument name): reason -- sites where a same-named value is deliberately handed to another parameter
+}
+
+
+def _callee_table(index):
+    """{simple name: [(module, qualname, FunctionDef)]} for every function / method of the analysed program."""
+    table = {}
+    for module, qual, fn in index.all_functions():
+        table.setdefault(qual.split('.')[-1], []).append((module, qual, fn))
+    return table
+
+
+def _positional_params(fn, bound):
+    params = [a.arg for a in fn.args.posonlyargs + fn.args.args]
+    if bound and params and params[0] in ('self', 'cls'):
+        params = params[1:]
+    return params
+
+
+def arg_binding(ck, rels, rule='ARG-binding'):
+    """For every call in `rels` whose callee resolves to exactly one function of the program (same module first, then
+    unique simple name): a positional argument that is a plain name (or `obj.name`) equal to the name of a parameter of
+    the callee must sit at that parameter's position.  Catches transposed arguments; says nothing about other calls."""
+    index = ck.index
+    table = _callee_table(index)
+    resolved = samename = 0
+    for rel in rels:
+        module = index.mod(rel)
+        for call in [n for n in ast.walk(module.tree) if isinstance(n, ast.Call)]:
+            if any(isinstance(a, ast.Starred) for a in call.args) or not (call.args or call.keywords):
+                continue
+            func = call.func
+            bound = False
+            name = None
+            if isinstance(func, ast.Name):
+                name = func.id
+            elif isinstance(func, ast.Attribute):
+                name = func.attr
+                bound = not (isinstance(func.value, ast.Name) and func.value.id in module.imports)
+            cands = table.get(name, [])
+            if isinstance(func, ast.Name):
+                same = [c for c in cands if c[0] is module and '.' not in c[1]]
+                cands = same or [c for c in cands if '.' not in c[1] and name in module.imports]
+                bound = False
+            elif isinstance(func, ast.Attribute) and isinstance(func.value, ast.Name) and func.value.id in ('self', 'cls'):
+                cls = module.enclosing(call, (ast.ClassDef,))
+                cands = [c for c in cands if c[0] is module and cls is not None and c[1] == cls.name + '.' + name]
+                bound = True
+            else:
+                # module.function(...) or object.method(...): only when the simple name is unique in the program
+                cands = cands if len(cands) == 1 else []
+                if cands:
+                    is_method = '.' in cands[0][1]
+                    bound = is_method and not any(isinstance(d, ast.Name) and d.id == 'staticmethod' for d in cands[0][2].decorator_list)
+                    if not is_method and not (isinstance(func.value, (ast.Name, ast.Attribute)) and base_name(func.value) in module.imports):
+                        cands = []
+            if len(cands) != 1:
+                continue
+            cmod, qual, fn = cands[0]
+            if isinstance(fn, ast.ClassDef):
+                continue
+            params = _positional_params(fn, bound)
+            allp = set(params) | {a.arg for a in fn.args.kwonlyargs}
+            resolved += 1
+            for pos, arg in enumerate(call.args):
+                aname = arg.id if isinstance(arg, ast.Name) else arg.attr if isinstance(arg, ast.Attribute) else None
+                if aname is None or aname not in allp:
+                    continue
+                samename += 1
+                want = params.index(aname) if aname in params else None
+                caller = module.enclosing_function(call)
+                cname = module.qualname_of(caller) if caller is not None else '<module>'
+                if (rel, cname, qual, aname) in ARG_TRIAGE:
+                    ck.note('{}: argument {} of {}() triaged: {}'.format(module.loc(call), aname, qual, ARG_TRIAGE[(rel, cname, qual, aname)]))
+                    continue
+                ck.ob(rule, module.loc(call), want == pos,
+                      '{}(): the value named `{}` is passed as parameter `{}`'.format(qual, aname, params[pos] if pos < len(params) else '*args') +
+                      ('' if want == pos else ' -- the callee has a parameter `{}` at position {}: transposed arguments'.format(aname, want)),
+                      key='{}|{}|{}|{}'.format(rule, cname, qual, aname))
+            for kw in call.keywords:
+                arg = kw.value
+                aname = arg.id if isinstance(arg, ast.Name) else arg.attr if isinstance(arg, ast.Attribute) else None
+                if kw.arg is None or aname is None or aname not in allp:
+                    continue
+                samename += 1
+                caller = module.enclosing_function(call)
+                cname = module.qualname_of(caller) if caller is not None else '<module>'
+                if (rel, cname, qual, aname) in ARG_TRIAGE:
+                    continue
+                ck.ob(rule, module.loc(call), kw.arg == aname, '{}(): the value named `{}` is passed as keyword `{}`'.format(qual, aname, kw.arg) +
+                      ('' if kw.arg == aname else ' -- the callee has a parameter `{}` of its own: crossed keywords'.format(aname)),
+                      key='{}|{}|{}|kw-{}'.format(rule, cname, qual, aname))
+    ck.extra.setdefault('arg_binding', {})['calls_resolved'] = resolved
+    ck.extra['arg_binding']['same_name_arguments'] = samename
+    return resolved, samename
